@@ -1030,6 +1030,22 @@ func (cx *evalCtx) call(x *ast.CallExpr) (TV, error) {
 				ref = app("s_arr", ref)
 			}
 			return TV{app(">=", ref, cx.old.frontier), SBool, types.Typ[types.Bool]}, nil
+		case "defined":
+			// defined(x): the local variable x has been given a value on the path that reaches this point (for return
+			// sites: lets a clause speak only about the returns behind x's declaration)
+			if len(x.Args) != 1 {
+				return TV{}, fmt.Errorf("defined(x) expects one local variable name")
+			}
+			idn, ok := x.Args[0].(*ast.Ident)
+			if !ok {
+				return TV{}, fmt.Errorf("defined(x) expects a local variable name")
+			}
+			_, has := cx.st.vars[idn.Name]
+			_, hasA := cx.st.vars["&"+idn.Name]
+			if has || hasA {
+				return TV{"true", SBool, types.Typ[types.Bool]}, nil
+			}
+			return TV{"false", SBool, types.Typ[types.Bool]}, nil
 		case "held":
 			// held(ref(x.mu)): the mutex at that address is held (lock typestate; what `guarded ... by` checks)
 			as, err := cx.args(x.Args)
